@@ -55,8 +55,19 @@ def main():
         results = dict(ex.map(one, names))
     out = dict(at=time.strftime("%Y-%m-%dT%H:%M:%S"), repo_head=sh("git -C /repo rev-parse --short HEAD")[1].strip(),
                verif_commit=sh("git -C /verif rev-parse --short HEAD")[1].strip(), seeds=results)
-    if not sys.argv[1:] or len(names) > 20:
-        json.dump(out, open("/verif/seeded/REGRESSION.json", "w"), indent=1, sort_keys=True)
+    if a:
+        # a partial run is merged into the recorded outcome (each new entry names the commit it was obtained at)
+        try:
+            old = json.load(open("/verif/seeded/REGRESSION.json"))
+        except Exception:
+            old = dict(seeds={})
+        for n, r in results.items():
+            r["verif_commit"] = out["verif_commit"]
+        merged = dict(old.get("seeds", {}))
+        merged.update(results)
+        out["seeds"] = merged
+        out["note"] = "merged: entries without verif_commit date from the last full run (%s at %s)" % (old.get("verif_commit"), old.get("at"))
+    json.dump(out, open("/verif/seeded/REGRESSION.json", "w"), indent=1, sort_keys=True)
     missed = [n for n, r in results.items() if not r.get("caught_by") and not r.get("expected_uncaught")]
     print("seeds:", len(results), "missed:", missed, "deliberately uncaught:", [n for n, r in results.items() if r.get("expected_uncaught")])
     sys.exit(1 if missed else 0)
